@@ -515,6 +515,13 @@ func generate(cfg vh.Config) []*caseJ {
 					break
 				}
 			}
+			if r.Intn(5) == 0 {
+				if hdrs, sh := genMultiRange(r, b, c); sh != "" {
+					trigger = hdrs
+					c.Shape = "ctl/" + sh
+					break
+				}
+			}
 			nt := 1
 			if r.Intn(6) == 0 {
 				nt = 2
@@ -716,6 +723,124 @@ func genMultiTarget(r *rand.Rand, c *caseJ) ([]string, string) {
 			pos = len(c.Src)
 		}
 		c.Src = append(c.Src[:pos], append([]itemJ{t}, c.Src[pos:]...)...)
+	}
+	return hdrs, shape
+}
+
+// genMultiRange: 3-6 ctl:ruleRemoveById entries (ranges, some single ids) executed in ONE transaction, in
+// every order: descending, ascending, interleaved; disjoint blocks whose boundaries are rule ids, overlapping,
+// nested and duplicated ranges. The removed set is the union of the entries whatever their order.
+func genMultiRange(r *rand.Rand, b baseSet, c *caseJ) ([]string, string) {
+	ids := append([]int{}, b.ids...)
+	sort.Ints(ids)
+	if len(ids) < 3 {
+		return nil, ""
+	}
+	var specs []specJ
+	shape := "multi-range"
+	switch r.Intn(3) {
+	case 0, 1:
+		// consecutive blocks of the sorted rule ids, each block one range [first id, last id]
+		m := 3 + r.Intn(3)
+		if m > len(ids) {
+			m = len(ids)
+		}
+		cuts := r.Perm(len(ids) - 1)[:m-1]
+		sort.Ints(cuts)
+		start := 0
+		for i := 0; i <= len(cuts); i++ {
+			end := len(ids) - 1
+			if i < len(cuts) {
+				end = cuts[i]
+			}
+			lo, hi := ids[start], ids[end]
+			switch r.Intn(6) {
+			case 0:
+				lo-- // boundary just below the first id
+			case 1:
+				hi++ // boundary just above the last id (may touch the next block)
+			case 2:
+				hi-- // the last id of the block stays (when the block has several ids)
+				if hi < lo {
+					hi = lo
+				}
+			}
+			if lo < 1 {
+				lo = 1
+			}
+			specs = append(specs, specJ{Range: true, A: lo, B: hi})
+			start = end + 1
+		}
+		if len(specs) > 3 && r.Intn(2) == 0 {
+			k := r.Intn(len(specs))
+			specs = append(specs[:k], specs[k+1:]...) // one block survives
+		}
+		shape += "/blocks"
+	default:
+		n := 3 + r.Intn(4)
+		for i := 0; i < n; i++ {
+			a, bb := ids[r.Intn(len(ids))], ids[r.Intn(len(ids))]
+			if a > bb {
+				a, bb = bb, a
+			}
+			specs = append(specs, specJ{Range: true, A: a, B: bb})
+		}
+		if r.Intn(2) == 0 {
+			// nested: a range strictly inside another one
+			o := specs[0]
+			if o.B-o.A >= 2 {
+				specs = append(specs, specJ{Range: true, A: o.A + 1, B: o.B - 1})
+			}
+		}
+		shape += "/random"
+	}
+	if r.Intn(3) == 0 {
+		specs = append(specs, specs[r.Intn(len(specs))]) // duplicate
+		shape += "+dup"
+	}
+	if r.Intn(3) == 0 {
+		specs[r.Intn(len(specs))] = specJ{A: ids[r.Intn(len(ids))]} // a single id among the ranges
+		shape += "+single"
+	}
+	if len(specs) > 6 {
+		specs = specs[:6]
+	}
+	switch r.Intn(4) {
+	case 0, 1:
+		sort.SliceStable(specs, func(i, j int) bool { return specs[i].A > specs[j].A })
+		shape += "/descending"
+	case 2:
+		r.Shuffle(len(specs), func(i, j int) { specs[i], specs[j] = specs[j], specs[i] })
+		shape += "/interleaved"
+	default:
+		sort.SliceStable(specs, func(i, j int) bool { return specs[i].A < specs[j].A })
+		shape += "/ascending"
+	}
+	mk := func(id int, hdr string, ss []specJ) itemJ {
+		l := linkJ{Targets: []titemJ{{Var: "REQUEST_HEADERS", Key: keyJ{K: "str", V: hdr}}}, Op: opJ{K: "streq", Lit: "1"},
+			Acts: []actJ{{A: "disr", V: "pass"}}}
+		for i := range ss {
+			sp := ss[i]
+			l.Acts = append(l.Acts, actJ{A: "ctl", Ctl: &ctlJ{Kind: "rmId", Spec: &sp}})
+		}
+		return itemJ{ID: 90, Phase: 1, Links: []linkJ{l}}
+	}
+	hdrs := []string{"x-ctl"}
+	var trig []itemJ
+	if r.Intn(3) != 0 {
+		trig = []itemJ{mk(90, "x-ctl", specs)}
+		shape += "(one rule)"
+	} else {
+		cut := 1 + r.Intn(len(specs)-1)
+		t2 := mk(91, "x-ctl2", specs[cut:])
+		t2.ID = 91
+		trig = []itemJ{t2, mk(90, "x-ctl", specs[:cut])}
+		hdrs = append(hdrs, "x-ctl2")
+		shape += "(two rules)"
+	}
+	// the triggers go first (in execution order 90 then 91) so that every later rule is concerned
+	for _, t := range trig {
+		c.Src = append([]itemJ{t}, c.Src...)
 	}
 	return hdrs, shape
 }
